@@ -775,8 +775,17 @@ def g_lts(rng):
                         ch = True
         part = "/".join(",".join(map(str, b)) for b in blocks)
         rel = ",".join(f"{a}.{b}" for (a, b) in sorted(r))
+    stage = ""
+    if len(edges) >= 2 and rng.random() < 0.12:
+        # two-stage construction: the second stage adds edges over labels the first stage already used (no new label, no new state)
+        k = rng.randint(1, len(edges) - 1)
+        seen = {b for (_, b, _) in edges[:k]}
+        mx = max(seen)
+        edges = edges[:k] + [e for e in edges[k:] if e[1] <= mx]
+        if len(edges) > k:
+            stage = f" st={k}"
     es = ";".join(f"{a},{b},{c}" for (a, b, c) in edges) or "-"
-    return f"lts {n} {es} {part} {rel} {out} {overload}"
+    return f"lts {n} {es} {part} {rel} {out} {overload}{stage}"
 
 
 # ---------------------------------------------------------------- explicit tree automata: histories
